@@ -16,13 +16,23 @@ Theorem user_code_runs_iff_started_and_ready : forall cfgs beh i g,
 Proof. exact EngineFacts.eval_node_runs_iff. Qed.
 Print Assumptions user_code_runs_iff_started_and_ready.
 
-(* "ready" is: every input the node requires to be valid (all of them by default, the
-   selected ones with an explicit selector) has a producer that has written a value. *)
+(* "ready" is: every input slot the node requires to be valid (all of them by default, the selected ones
+   with an explicit valid selector) has a producer that holds a value - for a list-shaped slot
+   (TSL<TS<int>,2>, two producers) at least one of its two producers - and every element of a slot
+   listed in the all-valid selector holds a value. *)
 Theorem ready_means_required_inputs_valid : forall c g,
   ready c g = true <->
-  forall s, In s (c_ins c) -> (c_vmode c = 0 \/ i_req s = true) -> n_val (node_at (i_src s) g) <> None.
+  forall s, In s (c_ins c) ->
+    ((c_vmode c = 0 \/ i_req s = true) -> slot_has_value g s) /\
+    (i_all s = true -> n_val (node_at (i_src s) g) <> None).
 Proof. exact EngineFacts.ready_iff. Qed.
 Print Assumptions ready_means_required_inputs_valid.
+
+(* the all-valid selector: user code does not run while ANY element of such a slot holds no value *)
+Theorem unset_element_of_all_valid_slot_blocks_user_code : forall c g s,
+  In s (c_ins c) -> i_all s = true -> n_val (node_at (i_src s) g) = None -> ready c g = false.
+Proof. exact EngineFacts.unset_element_blocks_user_code. Qed.
+Print Assumptions unset_element_of_all_valid_slot_blocks_user_code.
 
 (* A producer that invalidates its output withdraws the value, and a consumer requiring that
    input is then not ready: its user code does not run (first theorem above) until the
@@ -34,7 +44,8 @@ Proof. exact EngineFacts.invalidate_withdraws. Qed.
 Print Assumptions invalidation_withdraws_the_value.
 
 Theorem invalid_required_input_blocks_user_code : forall c g s,
-  In s (c_ins c) -> (c_vmode c = 0 \/ i_req s = true) -> n_val (node_at (i_src s) g) = None -> ready c g = false.
+  In s (c_ins c) -> (c_vmode c = 0 \/ i_req s = true) -> i_mate s = None ->
+  n_val (node_at (i_src s) g) = None -> ready c g = false.
 Proof. exact EngineFacts.invalid_input_blocks_user_code. Qed.
 Print Assumptions invalid_required_input_blocks_user_code.
 
